@@ -34,6 +34,11 @@ func (c *scriptConn) Write(b []byte) (int, error) {
 	}
 	if c.okLeft == 0 {
 		c.fails++
+		// a connection that dies in the middle of a write reports the bytes it had taken (0 < n < len(b) with an
+		// error is legal for net.Conn); every other scripted failure does so: nothing complete was written either way
+		if c.fails%2 == 1 {
+			return len(b) / 3, errors.New("scripted write failure after a partial write")
+		}
 		return 0, errors.New("scripted write failure")
 	}
 	if c.okLeft > 0 {
